@@ -44,6 +44,7 @@ type step struct {
 	Group   string            `json:"group"`
 	ID      string            `json:"id"`
 	Reqs    []step            `json:"reqs"` // burst: requests sent at once, not awaited before the kill
+	Grow    int64             `json:"grow"` // burst: kill as soon as the database file has grown by this many bytes (0: after ms)
 }
 
 // stepObs is the envelope of every step observation; all keys are always present.
